@@ -35,7 +35,9 @@ def _options(op):
         o.Init(tab.Bytes, tab.Pos)
         d = {}
         for m in dir(cls):
-            if m[0].isupper() and not m.startswith(("Init", "GetRootAs", "Start", "Add", "End")) and not m.endswith(
+            # field accessors of the generated class: everything but Init / GetRootAs* / the vector helpers (a prefix
+            # test on "Init", "End", ... would drop CallOnceOptions.InitSubgraphIndex and StridedSliceOptions.EndMask)
+            if m[0].isupper() and m != "Init" and not m.startswith("GetRootAs") and not m.endswith(
                     ("Length", "IsNone", "AsNumpy", "BufferHasIdentifier")) and m != name:
                 try:
                     if hasattr(cls, m + "Length"):
